@@ -239,6 +239,47 @@ def evaluate(world, drv, plan=None, model_faults=None, oracles=("C01", "C04", "C
                 bad = dict(r, index=i)
                 break
         res["oracle"]["C05"] = bad or {"ok": True, "verdict": "ok", "states": len(obs["states"])}
+    if "C07" in oracles and len(facts["items"]) == 1 and facts["items"][0]["entry"] is not None \
+            and not facts["items"][0].get("ismount") and obs.get("exc") is None and facts["items"][0]["lexists"] \
+            and not any(m.get("spelling") == "symlink-dotdot" for m in world.get("meta", [])):
+        it = facts["items"][0]
+        opts = world.get("opts", {})
+        env = world.get("env", {})
+        fb = bool(opts.get("homeFallback")) and env.get("TRASH_ENABLE_HOME_FALLBACK") == b"1"
+
+        def cand(d, kind):
+            return {"dir": hx(d["dir"]), "files": hx(d["files"]), "info": hx(d["info"]), "kind": kind, "parentOk": bool(d["parentOk"])}
+        cands = []
+        if opts.get("trashDir"):
+            cands = [cand(d, "custom") for d in facts["dirs"] if d["kind"] == "custom"]
+        else:
+            homes = [d for d in facts["dirs"] if d["kind"] == "home"]
+            cands += [cand(d, "home") for d in homes]
+            cands += [cand(d, d["kind"]) for d in facts["dirs"] if d["kind"] in ("top", "alt") and d["vol"] == it["dev"]]
+            cands.sort(key=lambda c: {"home": 0, "top": 1, "alt": 2}[c["kind"]])
+            if opts.get("homeFallback"):
+                cands += [cand(d, "fallback") for d in homes]
+        after_state = snap_to_state(obs["after"])
+        got = None
+        for d in facts["dirs"]:
+            fdir = d["files"]
+            for p in after_state:
+                if p.startswith(fdir + b"/") and b"/" not in p[len(fdir) + 1:] and p not in before:
+                    got = d["dir"]
+        r = drv.ask(dict(base, prop="C07", dev=hx(it["dev"]), fallbackEnabled=fb, cands=cands,
+                         got=hx(got) if got is not None else None))
+        # a silent cross-device copy shows as data-copying calls outside info/
+        copied = any(rec[0] in ("createTrunc", "symlink") and not bytes.fromhex(rec[1][0]).endswith(b".trashinfo")
+                     for rec in obs["trace"] if rec[2] == "ok")
+        if r["ok"] and copied and not fb:
+            r = {"ok": False, "verdict": "C07.silent-copy"}
+        res["oracle"]["C07"] = r
+        res["tags"].append("c07:got:" + next((d["kind"] for d in facts["dirs"] if d["dir"] == got), "none"))
+    if "C08" in oracles:
+        roots = [hx(d["dir"]) for d in facts["dirs"] if d["kind"] == "top" and d.get("insecure")]
+        if roots:
+            res["oracle"]["C08"] = drv.ask(dict(base, prop="C08", roots=roots, mentions=False))
+            res["tags"].append("c08:insecure-top-present")
     res["stderr"] = obs["stderr"]
     res["trace"] = obs["trace"]
     res["brows"], res["arows"] = brows, arows
